@@ -7,15 +7,15 @@
 
 PROPS = {
     'C11': {
-        'units': ['mkdeps'],
+        'units': ['mkdeps', 'depinfo'],
         'design_ref': 'DESIGN.md section 4, C11',
         'claim': 'Makefile-deps lexer/parser: consumed/produced byte accounting of lexWord, every reported word is a '
                  'non-empty span of the buffer, rule start/end pairing also on error paths, isWordChar table',
         'not_decided': ['that a later change to P re-executes the command (paper lemma L1)', 'file reading'],
     },
     'C19': {
-        'units': ['mkdeps'],
-        'safety': ['mkdeps'],
+        'units': ['mkdeps', 'depinfo'],
+        'safety': ['mkdeps', 'depinfo'],
         'design_ref': 'DESIGN.md section 4, C19',
         'claim': 'every dereference in the hand-written parsers is inside the supplied buffer (no terminator assumed), '
                  'every loop terminates (decreases clauses), cursors stay in [begin,end]',
